@@ -828,6 +828,7 @@ func (fx *FnCtx) ret(x *ssa.Return) {
 		fx.obligNamed(name, t, c.Text, c.Props, c.Known)
 	}
 	fx.counter["ret"]++
+	fx.retStates = append(fx.retStates, retState{x.Block(), fx.cur.clone()})
 }
 
 func (fx *FnCtx) panicInstr(x *ssa.Panic) {
@@ -888,6 +889,18 @@ func (fx *FnCtx) calleeContract(c *ssa.CallCommon) (*FuncContract, *ssa.Function
 		}
 	}
 	if callee == nil {
+		// call through a function-typed parameter with a declared funcparam contract
+		if ld, ok := c.Value.(*ssa.UnOp); ok && ld.Op == token.MUL {
+			if a, ok := ld.X.(*ssa.Alloc); ok && fx.fc.FuncParams != nil {
+				if sub, ok := fx.fc.FuncParams[a.Comment]; ok {
+					for _, p := range fx.fn.Params {
+						if p.Name() == a.Comment {
+							return sub, nil, nil
+						}
+					}
+				}
+			}
+		}
 		return nil, nil, nil
 	}
 	if callee.Pkg == nil {
@@ -972,6 +985,7 @@ func (fx *FnCtx) call(v *ssa.Call, c *ssa.CallCommon) {
 		return
 	}
 	fx.callees[calleeName] = true
+	fx.usedFC[fc] = true
 	// parameter names
 	var pnames []string
 	var cpkg *types.Package
@@ -1002,6 +1016,9 @@ func (fx *FnCtx) call(v *ssa.Call, c *ssa.CallCommon) {
 		cpkg = fx.fn.Pkg.Pkg
 		if fc.Pkg != "" {
 			cpkg = P.pkgOf(fc.Pkg)
+		}
+		if cpkg == nil {
+			cpkg = fx.fn.Pkg.Pkg
 		}
 	}
 	mkEnv := func(cur, old *State) *Env {
